@@ -122,6 +122,17 @@ impl CommitterKeyStream {
 //@body
 //@rw 1 /<E::G1 as VariableBaseMSM>::msm_chunks\(&self\.powers_of_g, polynomial\)/ => msm_chunks(&self.powers_of_g, polynomial)
 //@end
+//@fn id=streaming.space.batch_commit file=poly-commit/src/streaming_kzg/space.rs scope="impl<E, SG> CommitterKeyStream<E, SG>" name=batch_commit props=C14,C08,C19
+    // (the slice of `&dyn Iterable` coefficient streams is instantiated at in-memory vectors, as for `commit`)
+    pub fn batch_commit(&self, polynomials: &Vec<&Vec<Fr>>) -> (r: Vec<Commitment>)
+    ensures
+        forall|i: int| #![trigger r@[i]] 0 <= i < polynomials@.len() ==> polynomials@[i]@.len() <= self.powers_of_g@.len(),     // name=streaming.space.batch_commit.polynomial_longer_than_key_aborts props=C17,C19
+        r@.len() == polynomials@.len(),     // name=streaming.space.batch_commit.one_commitment_per_polynomial props=C14,C19
+        // the i-th commitment is `commit` of the i-th polynomial, in order
+        forall|i: int| 0 <= i < polynomials@.len() ==> (#[trigger] r@[i]).0@ == dot(g1views(self.powers_of_g@.subrange(self.powers_of_g@.len() - polynomials@[i]@.len(), self.powers_of_g@.len() as int)), fviews(polynomials@[i]@), polynomials@[i]@.len()),   // name=streaming.space.batch_commit.value_in_order props=C14,C08,C19
+//@body
+//@rw 1 /polynomials\.iter\(\)((?:\.(?:rev|skip)\([^()]*\))*)\.map\(\|&(\w+)\| self\.commit\(\2\)\)\.collect\(\)/ => { let res__: Vec<Commitment> = polynomials.iter()\1.map(|p__: &&Vec<Fr>| -> (c: Commitment) ensures p__@.len() <= self.powers_of_g@.len(), c.0@ == dot(g1views(self.powers_of_g@.subrange(self.powers_of_g@.len() - p__@.len(), self.powers_of_g@.len() as int)), fviews(p__@), p__@.len()) { let p = *p__; self.commit(p) }).collect(); proof { assert forall|i: int| 0 <= i < polynomials@.len() implies polynomials@[i]@.len() <= self.powers_of_g@.len() by { let c__ = res__@[i]; let q__ = &polynomials@[i]; assert(q__@.len() <= self.powers_of_g@.len()); } } res__ }
+//@end
 //@fn id=streaming.space.open file=poly-commit/src/streaming_kzg/space.rs scope="impl<E, SG> CommitterKeyStream<E, SG>" name=open props=C14,C01,C19
     pub fn open(&self, polynomial: &Vec<Fr>, alpha: &Fr, max_msm_buffer: usize) -> (r: (Fr, EvaluationProof))
     requires
